@@ -237,7 +237,10 @@ def _sign_variant_programs(base_strategy):
                 signs.append(sg)
         same_head = draw(st.booleans())
         prob = draw(st.sampled_from([None, None, "0.6", "0.25", "0.9"]))
-        extra_head = draw(st.sampled_from([None, None, "0.3", "0.1"])) if prob is not None else None
+        extra_head = None
+        if prob is not None:
+            # the two head probabilities must not add up to more than 1
+            extra_head = draw(st.sampled_from([None, None, "0.1"] if prob == "0.9" else [None, None, "0.3", "0.1"]))
         rules = []
         heads = []
         for i, sg in enumerate(signs):
